@@ -74,6 +74,13 @@ pub trait Val: Same + Clone + PartialEq + 'static {
     fn scale(&self, _k: usize) -> Self {
         self.clone()
     }
+    /// Another value made of the same leaf material: strings and innermost sequences are
+    /// doubled (`s + s`), so every first byte and every symbol of the sibling occurs in the
+    /// original at the same place of the structure. What a coded region built from statistics
+    /// over `self` must accept although it never saw the sibling itself.
+    fn sibling(&self) -> Self {
+        self.clone()
+    }
     /// A run of `n` values with structure that is interesting for this type
     /// (default: independent draws with repeats).
     fn gen_run(rng: &mut Rng, dom: Dom, n: usize) -> Vec<Self> {
@@ -458,6 +465,9 @@ impl Val for String {
     fn scale(&self, k: usize) -> Self {
         self.repeat(k)
     }
+    fn sibling(&self) -> Self {
+        self.repeat(2)
+    }
     fn is_empty_container(&self) -> bool {
         self.is_empty()
     }
@@ -527,6 +537,20 @@ impl<T: Val> Val for Vec<T> {
         }
         self.iter().map(|x| x.scale(k)).collect()
     }
+    fn sibling(&self) -> Self {
+        if T::is_zst() || self.len() > 4096 {
+            return self.clone();
+        }
+        let mapped: Vec<T> = self.iter().map(|x| x.sibling()).collect();
+        if mapped.iter().zip(self.iter()).all(|(a, b)| a.same(b)) {
+            // a sequence of scalars: double it
+            let mut d = self.clone();
+            d.extend(self.iter().cloned());
+            d
+        } else {
+            mapped
+        }
+    }
     fn peq(&self, o: &Self) -> bool {
         if T::is_zst() {
             return self.len() == o.len();
@@ -567,6 +591,9 @@ impl<T: Val> Val for Option<T> {
     fn scale(&self, k: usize) -> Self {
         self.as_ref().map(|x| x.scale(k))
     }
+    fn sibling(&self) -> Self {
+        self.as_ref().map(|x| x.sibling())
+    }
 }
 
 impl<T: Same, E: Same> Same for Result<T, E> {
@@ -598,6 +625,12 @@ impl<T: Val, E: Val> Val for Result<T, E> {
             Err(a) => Err(a.scale(k)),
         }
     }
+    fn sibling(&self) -> Self {
+        match self {
+            Ok(a) => Ok(a.sibling()),
+            Err(a) => Err(a.sibling()),
+        }
+    }
 }
 
 macro_rules! tuple_val {
@@ -612,6 +645,7 @@ macro_rules! tuple_val {
         impl<$($n: Val),+> Val for ($($n,)+) {
             fn gen(rng: &mut Rng, dom: Dom) -> Self { ($($n::gen(rng, dom),)+) }
             fn scale(&self, k: usize) -> Self { ($(self.$i.scale(k),)+) }
+            fn sibling(&self) -> Self { ($(self.$i.sibling(),)+) }
         }
     };
 }
